@@ -1135,6 +1135,8 @@ EXPECTED_WRITERS = {
     ("bads.py", "_poll_step_", "attr:mesh_size"): 1,
     ("bads.py", "_poll_step_", "key:mesh_size"): 1,
 }
+# call sites of the methods that write loop state, in the whole class (a second call of _poll_step_ is a second writer)
+EXPECTED_CALLS = {"_poll_step_": 1, "_search_step_": 1, "_check_mesh_overflow_": 2, "_update_incumbent_": 4, "_init_optim_state_": 1}
 DYNAMIC = ("setattr", "__setattr__", "__dict__", "exec", "eval", "vars")
 
 
@@ -1233,6 +1235,20 @@ def parse():
     parse_search(methods["_search_step_"], cx, defs, info)
     parse_poll(methods["_poll_step_"], cx, defs, info)
     info["writers"] = census()
+    region("census")
+    calls = {}
+    for n in ast.walk(cls):
+        if isinstance(n, ast.Call) and isinstance(n.func, ast.Attribute) and isinstance(n.func.value, ast.Name) and n.func.value.id == "self" \
+                and n.func.attr in EXPECTED_CALLS:
+            calls[n.func.attr] = calls.get(n.func.attr, 0) + 1
+    for n in ast.walk(cls):
+        # a bound method handed around (`f = self._poll_step_`) escapes the census
+        if isinstance(n, ast.Attribute) and isinstance(n.value, ast.Name) and n.value.id == "self" and n.attr in EXPECTED_CALLS and isinstance(n.ctx, ast.Load):
+            pass
+    loads = sum(1 for n in ast.walk(cls) if isinstance(n, ast.Attribute) and isinstance(n.value, ast.Name) and n.value.id == "self" and n.attr in EXPECTED_CALLS)
+    if calls != EXPECTED_CALLS or loads != sum(EXPECTED_CALLS.values()):
+        raise Untranslatable(f"call sites of the loop's methods differ from the modelled ones: {calls} (references {loads}), expected {EXPECTED_CALLS}", "census")
+    info["call_sites"] = calls
     # stobads branches anywhere in the class (the regions count the ones they step over; the rest of the class must hold no more)
     region("stobads")
     loop_methods = [methods[m] for m in ("optimize", "_search_step_", "_poll_step_")]
@@ -1303,12 +1319,14 @@ def emit():
     try:
         defs, info = parse()
         text = render(defs)
-    except Untranslatable as ex:
+    except Exception as ex:          # fail closed on ANYTHING (also on a crash of the translator itself): never leave a stale translation behind
         OUT.parent.mkdir(parents=True, exist_ok=True)
         OUT.write_text("(* GENERATED by translate/loop.py: the source is NOT translatable, no definition emitted.\n   "
-                       + str(ex).replace("*)", "* )").replace("(*", "( *") + " *)\n")
-        LAST.update(region=ex.region, changed=None, error=str(ex))
-        raise
+                       + repr(ex).replace("*)", "* )").replace("(*", "( *") + " *)\n")
+        LAST.update(region=getattr(ex, "region", _REGION[0]), changed=None, error=repr(ex), defs=None)
+        if isinstance(ex, Untranslatable):
+            raise
+        raise Untranslatable(f"translator crashed: {ex!r}", _REGION[0])
     OUT.parent.mkdir(parents=True, exist_ok=True)
     if not OUT.exists() or OUT.read_text() != text:
         OUT.write_text(text)
